@@ -40,8 +40,11 @@ TRUSTED = ["Coq 8.16.1 kernel (coqc); no axioms (Print Assumptions: closed under
            "harness/props/c06.py generators/oracles; harness/props/sugar_pyref.py (CPython eval of the original, "
            "own tree-walking interpreter for the lowered query)"]
 ASSUME = ["ops contains \"Select\" and \"Where\" (the lowering emits method-form calls; hypothesis of sugar_sem)",
-          "constructor parameters are all positional-or-keyword (plain dataclass / NamedTuple fields; kw_only fields, "
-          "InitVar and hand-written __init__ are outside the stated field-list quantifier)",
+          "the Coq model sees a class as the list of its constructor parameter names, all positional-or-keyword; "
+          "constructors with keyword-only parameters, InitVar, init=False fields or inherited fields are checked on the "
+          "implementation against inspect.Signature.bind (oracle only, no theorem, no model comparison)",
+          "the binding oracle is Signature.bind; only the refusal 'missing a required argument' is tolerated (then "
+          "bind_partial): omitted fields are simply absent from the dictionary",
           "generator expressions are forced where they are created (the query language has no lazy values; late "
           "binding of a lazy generator consumed after its enclosing loop ended is outside the property)",
           "a callee Constant is a class: a Constant holding a dataclass/NamedTuple *instance* (bridge kind other:...) and "
@@ -54,8 +57,13 @@ RULE = ("corpus (F17 witnesses, test-suite shapes), then every comprehension nes
         "seeded sample of depth 3 (ListComp/GeneratorExp x target fresh/colliding-with-global/colliding-with-outer-target "
         "x 0-3 ifs in two styles (one sensitive to clause order/short circuit) x nesting in element/iterable/condition "
         "position/inside an operator lambda x three top-level wrappers incl. function- and method-form operator lambdas), "
+        "every depth-1/2 nest over targets whose spelling contains or is contained in another name in scope (jet/j, x2/x, "
+        "n1/n, x/xs) with bare-name elements equal to and different from the loop variable, "
         "every field list over {x,y,z} of length <=3 x dataclass/NamedTuple x 0-4 positionals x every keyword sequence "
-        "over {x,y,z,w} up to length 2 (3 in thorough) plus starred/**kw variants, a malformed stream (tuple/attribute "
+        "over {x,y,z,w} up to length 2 (3 in thorough) plus starred/**kw variants, an ORACLE-ONLY pool of constructors "
+        "outside the model's domain (kw_only fields in every position, inheritance adding positional/kw-only fields, InitVar, "
+        "field(init=False), KW_ONLY sentinel, defaults, NamedTuple defaults/subclass) x 0-4 positionals x keyword sequences "
+        "up to length 2, judged by inspect.Signature.bind only, a malformed stream (tuple/attribute "
         "targets, async, 0/2/3 for-clauses, non-comprehension generators, raw values, non-class constants as callee) and "
         "seeded random mixtures; a case is non-trivial when it contains a comprehension or a class-constant call; "
         "distinct by ast.dump")
@@ -120,11 +128,119 @@ class Plain:
         self.x = x
 
 
+# ---- oracle-only pool: constructors whose parameters are NOT all positional-or-keyword in declaration order.
+# Outside the Coq model's domain (the model sees a class as its list of parameter names); these cases are run
+# against the implementation with inspect.Signature.bind as the oracle, and are not compared with the model.
+
+def _np_classes():
+    from dataclasses import InitVar, KW_ONLY, dataclass, field
+    import typing
+
+    out = []
+    # keyword-only fields in every position of every field list x / x,y / x,y,z
+    for k in (1, 2, 3):
+        names = ("x", "y", "z")[:k]
+        for mask in range(1, 2 ** k):
+            spec = [(f, int, field(kw_only=True)) if mask >> i & 1 else (f, int) for i, f in enumerate(names)]
+            out.append(dataclasses.make_dataclass("KW_%s_%d" % ("".join(names), mask), spec))
+
+    @dataclass
+    class Tagged:                      # keyword-only field declared before positional ones
+        tag: int = field(kw_only=True, default=0)
+        a: int = 1
+        b: int = 2
+
+    @dataclass
+    class BaseK:
+        k: int = field(kw_only=True)
+
+    @dataclass
+    class SubOfK(BaseK):               # inherited keyword-only field, positional field added
+        a: int
+
+    @dataclass
+    class BaseP:
+        a: int
+
+    @dataclass
+    class SubPos(BaseP):               # inherited positional field, positional field added
+        b: int
+
+    @dataclass
+    class SubKw(BaseP):                # inherited positional field, keyword-only field added
+        k: int = field(kw_only=True, default=5)
+
+    @dataclass
+    class WithInitVar:                 # an InitVar parameter between two fields
+        a: int
+        scale: InitVar[int]
+        b: int = 0
+
+        def __post_init__(self, scale):
+            pass
+
+    @dataclass
+    class NoInit:                      # a field that is not a constructor parameter
+        a: int
+        c: int = field(init=False, default=0)
+        b: int = 1
+
+    @dataclass
+    class Sentinel:                    # KW_ONLY sentinel
+        a: int
+        _: KW_ONLY
+        k: int
+        m: int = 3
+
+    @dataclass(kw_only=True)
+    class AllKw:
+        x: int
+        y: int = 0
+
+    @dataclass
+    class AllDefaults:
+        x: int = 0
+        y: int = 1
+        z: int = 2
+
+    class NTd(typing.NamedTuple):
+        x: int
+        y: int = 0
+        z: int = 1
+
+    class NTsub(NTd):                  # subclass of a NamedTuple
+        pass
+
+    out += [Tagged, SubOfK, SubPos, SubKw, WithInitVar, NoInit, Sentinel, AllKw, AllDefaults, NTd, NTsub]
+    return out
+
+
+NP_CLASSES = _np_classes()
+
+
+def np_call_cases():
+    out = []
+    for cls in NP_CLASSES:
+        if dataclasses.is_dataclass(cls):
+            names = [f.name for f in dataclasses.fields(cls)]
+            names += [p for p in inspect.signature(cls).parameters if p not in names]
+        else:
+            names = list(cls._fields)
+        keys = names + ["w"]
+        for npos in range(0, 5):
+            for nk in (0, 1, 2):
+                for ks in itertools.product(keys, repeat=nk):
+                    out.append(("dcall_np", mk_ccall(cls, npos, ks)))
+    return out
+
+
 CLASS_NAMES = {}
+for _c in NP_CLASSES:
+    CLASS_NAMES[id(_c)] = "__CLS__np__" + _c.__name__
 for _k, _c in CLASSES.items():
     CLASS_NAMES[id(_c)] = "__CLS__%s__%s__%d" % (_k[0], "_".join(_k[1]), _k[2])
 CLASS_NAMES[id(Plain)] = "__CLS__plain"
-CLASS_BY_NAME = {v: c for c in list(CLASSES.values()) + [Plain] for k, v in CLASS_NAMES.items() if k == id(c)}
+CLASS_BY_NAME = {v: c for c in list(CLASSES.values()) + [Plain] + NP_CLASSES for k, v in CLASS_NAMES.items() if k == id(c)}
 
 
 def enc(e) -> str:
@@ -193,13 +309,13 @@ def _plain_elt(t, outer):
     return gen.binop(ast.Add, N(t), N(other))
 
 
-def build_comp(kind, t, shape, pos, sub, outer, base):
+def build_comp(kind, t, shape, pos, sub, outer, base, elt_override=None):
     """One comprehension over `base` (an expression for the iterable) with the nested comprehension
     `sub` (or None) placed at position `pos`."""
     nif, style = shape
     ifs = _conds(t, style, nif)
     it = base
-    elt = _plain_elt(t, outer)
+    elt = elt_override if elt_override is not None else _plain_elt(t, outer)
     if sub is not None:
         if pos == "elt":
             elt = sub
@@ -228,16 +344,55 @@ def enum_comps(depth, outer, base_name="xs"):
                         yield build_comp(kind, t, shape, pos, sub, outer, N(base_name))
 
 
+# names in a substring relation with the globals x, n, xs and with each other
+NAME_POOL = ["j", "jet", "x", "x2", "n1"]
+
+
+def name_cases():
+    """Targets whose spelling contains / is contained in another name in scope, and elements that are a bare
+    name - the loop variable itself or a *different* name - with and without `if` clauses (exhaustive)."""
+    out = []
+    for kind in KINDS:
+        for t in NAME_POOL + ["a"]:
+            for nif, style in IF_SHAPES:
+                elts = [N(t), N("n"), gen.binop(ast.Add, N(t), N("n"))] + ([N("x")] if t != "x" else [])
+                for elt in elts:
+                    out.append(mk_comp(kind, t, N("xs"), _conds(t, style, nif), elt))
+    pool = ["j", "jet", "x", "x2"]
+    for kind in KINDS:
+        for o in pool:
+            for i in pool:
+                for inner_ifs in ([gen.cmp(ast.Gt, N(i), N(o))], _conds(i, "B", 2)):
+                    seen = set()
+                    for elt in [N(i), N(o), N("x"), N("n"), gen.binop(ast.Add, N(i), N(o))]:
+                        if ast.dump(elt) in seen:
+                            continue
+                        seen.add(ast.dump(elt))
+                        inner = mk_comp(kind, i, N("ys"), copy.deepcopy(inner_ifs), elt)
+                        for outer_ifs in ([], [gen.cmp(ast.Gt, N(o), C(0))]):
+                            out.append(mk_comp(kind, o, N("xs"), outer_ifs, copy.deepcopy(inner)))
+    return out
+
+
 def rand_comp(r, depth, outer, base_name="xs"):
     kind = r.choice(KINDS)
-    t = r.choice(_targets(outer))
+    ts = _targets(outer)
+    if r.random() < 0.3:
+        ts = ["x2", "n1"] + ([outer[-1] + "2", outer[-1][:1]] if outer else [])
+    t = r.choice(ts)
     shape = r.choice(IF_SHAPES)
+    elt_override = None
+    u = r.random()
+    if u < 0.2:
+        elt_override = N(t)
+    elif u < 0.4:
+        elt_override = N(r.choice(outer + ["x", "n"]))
     if depth <= 1 or r.random() < 0.1:
-        return build_comp(kind, t, shape, None, None, outer, N(base_name))
+        return build_comp(kind, t, shape, None, None, outer, N(base_name), elt_override)
     pos = r.choice(POSITIONS)
     inner_outer = outer if pos == "iter" else outer + [t] + (["q"] if pos == "lam" else [])
     sub = rand_comp(r, depth - 1, inner_outer, "xs" if pos == "iter" else "ys")
-    return build_comp(kind, t, shape, pos, sub, outer, N(base_name))
+    return build_comp(kind, t, shape, pos, sub, outer, N(base_name), elt_override)
 
 
 def wrap(e_factory, w):
@@ -301,10 +456,19 @@ def bind_oracle(e: ast.Call):
     if len(set(names)) != len(names):
         return ("raise", "keyword argument repeated")
     sig = inspect.signature(cls)
+    kw = {k.arg: k.value for k in e.keywords}
     try:
-        ba = sig.bind_partial(*e.args, **{k.arg: k.value for k in e.keywords})
+        ba = sig.bind(*e.args, **kw)
     except TypeError as ex:
-        return ("raise", str(ex))
+        if not str(ex).startswith("missing a required"):
+            return ("raise", str(ex))
+        # only omitted required parameters are tolerated (the property speaks of the arguments given);
+        # every other refusal of Python's (surplus positional - also positional given to a keyword-only
+        # parameter -, unknown or repeated keyword) must be a ValueError of the library
+        try:
+            ba = sig.bind_partial(*e.args, **kw)
+        except TypeError as ex2:
+            return ("raise", str(ex2))
     return ("ok", [(k, v) for k, v in ba.arguments.items()])
 
 
@@ -368,6 +532,9 @@ def corpus():
                 "[x for x in xs if x for x in x.ys if x]", "[lambda: a for a in xs]", "{a for a in xs}",
                 "{a: 1 for a in xs}", "f(*[a for a in xs], **{'k': (b for b in ys)})"]:
         out.append(("src", ast.parse(src, mode="eval").body))
+    for src in ["[[j for jet in ys if jet > j] for j in xs]", "[x for x2 in xs if x2 > 2]", "[jet for jet in xs if jet > 0]",
+                "[n for n1 in xs if n1 != 0]", "(j for jet in ys if jet)"]:
+        out.append(("sem", ast.parse(src, mode="eval").body))
     ag = ast.parse("[a for a in xs]", mode="eval").body
     ag.generators[0].is_async = 1
     out.append(("malformed", ag))
@@ -529,7 +696,11 @@ def cases(ctx):
             else:
                 out.append(("sem", fcall("Select", N("zs"), lam("r", e))))
     ctx.notes.append("comprehension nests: depth<=2 bare and depth 1 under both operator-lambda wrappers, exhaustive: %d" % n2)
-    n3 = ctx.budget(1500, 30000)
+    nm = name_cases()
+    out += [("sem", e) for e in nm]
+    ctx.notes.append("names in a substring relation (jet/j, x2/x, n1/n, x/xs) as targets at depth 1 and 2, bare-name "
+                     "elements equal to / different from the loop variable, exhaustive: %d" % len(nm))
+    n3 = ctx.budget(1100, 30000)
     for _ in range(n3):
         w = r.choice([0, 0, 1, 2])
         out.append(("sem", wrap(lambda outer, base: rand_comp(r, 3, outer, base), w)))
@@ -552,6 +723,11 @@ def cases(ctx):
             nd += 2
     ctx.notes.append("constructor calls: %d (all field lists <=3 x dataclass/NamedTuple x 0-4 positionals x keyword "
                      "sequences over x,y,z,w up to length %d; + starred / **kw / defaulted-field variants)" % (nd, max_kw))
+    npc = np_call_cases()
+    out += npc
+    ctx.notes.append("oracle-only constructor pool (kw_only fields in every position, inheritance, InitVar, init=False, "
+                     "KW_ONLY sentinel, defaults, NamedTuple defaults/subclass): %d classes, %d calls, not compared with the model"
+                     % (len(NP_CLASSES), len(npc)))
     out += sem_dc_cases(r, ctx.budget(400, 6000))
     out += malformed_cases(r, ctx.budget(600, 9000))
     rg = SugarRandom(r)
@@ -636,9 +812,9 @@ def check_case(ctx, tag, e, ans, pinned_ans=None, preds_ans=None):
     key = _key(e)
     problems = []
     # --- direct oracles
-    if tag == "dcall":
+    if tag in ("dcall", "dcall_np"):
         p = oracle_bind(e, res)
-        ctx.count("bind_oracle", bind_oracle(e)[0])
+        ctx.count("bind_oracle" if tag == "dcall" else "bind_oracle_nonplain", bind_oracle(e)[0])
         if p:
             problems.append(("bind", p))
     wf = gensok and not raw
@@ -657,6 +833,9 @@ def check_case(ctx, tag, e, ans, pinned_ans=None, preds_ans=None):
         name, p = problems[0]
         ctx.fail("failing-input", "resolve_syntatic_sugar(%s): %s" % (bridge.dump(e)[:300], p),
                  {"oracle": name, "expr_dump": d, "expr": bridge.dump(e), "tag": tag}, key=key)
+    if tag == "dcall_np":      # outside the model's domain: oracle only
+        ctx.corr_cases -= 1
+        return
     # --- correspondence
     want = model_line(ans)
     if want != got:
